@@ -297,6 +297,11 @@ def run_transfer(pid, mode, ga, gb=None):
                 P2 = P1
             src = slicer(I, P1, GEOMS[ga])
             dst = slicer(I, P2, GEOMS[gb])
+            # histories in which the caller has already looked at the slices (shape / contents) before using them
+            for sl_ in (src, dst):
+                if isinstance(sl_, Obj) and sl_.cls.name == 'PlateSlicer':
+                    vc.call(I, 'Slicer.get', [sl_])
+                    I.getattr(sl_, 'shape')
             info.update(src=(P1, GEOMS[ga]), dst=(P2, GEOMS[gb]))
             I.writes.clear()
             out = vc.call(I, 'Plate.transfer', [src, dst, q])
